@@ -121,7 +121,14 @@ fn main() {
     }
     ctx.extra("corpus_replayed", serde_json::json!(replayed));
 
+    // development aid: VERIF_ONLY=<check name>[,<name>...] runs only those parts (no evidence is written)
+    let only: Option<Vec<String>> = std::env::var("VERIF_ONLY").ok().map(|s| s.split(',').map(|x| x.to_string()).collect());
     for (prop, cases) in plan.props.iter() {
+        if let Some(o) = &only {
+            if !o.iter().any(|n| n == prop.name()) {
+                continue;
+            }
+        }
         prop.run(&ctx, *cases);
     }
     if let Some(post) = plan.post {
